@@ -3,12 +3,19 @@ package main
 import (
 	"fmt"
 	"math/rand"
+	"os"
+	"path/filepath"
+	"strconv"
+	"strings"
+	"time"
 	"runtime"
 	"sort"
 	"sync"
 	"sync/atomic"
 
 	"github.com/markusressel/fan2go/internal/configuration"
+	"github.com/markusressel/fan2go/internal/control_loop"
+	"github.com/markusressel/fan2go/internal/fans"
 	"github.com/markusressel/fan2go/internal/curves"
 )
 
@@ -432,8 +439,71 @@ func c07SharedCurve(ctx *Ctx) {
 	ctx.Nontrivial("shared-curve|" + typ + "|" + fmt.Sprint(len(ids)))
 }
 
+// c07SlowSetTool: a cmd fan whose set tool answers slowly once (a busy bus: 1.3 s, inside fan2go's 2 s limit) while the
+// temperature keeps rising. Linear curve, direct algorithm, identity map: the value the device holds - sampled until
+// every started tool has had time to finish - never falls.
+func c07SlowSetTool(ctx *Ctx) {
+	installClock()
+	dir := ctx.Path(uniqueId("c07slow"))
+	_ = os.MkdirAll(dir, 0755)
+	defer os.RemoveAll(dir)
+	ctx.LogCase(map[string]interface{}{"class": "slow-set-tool:process-died"})
+	pwmFile := filepath.Join(dir, "pwm")
+	_ = os.WriteFile(pwmFile, []byte("0\n"), 0644)
+	cmdScript(filepath.Join(dir, "set.sh"), "if [ -e "+dir+"/slow ]; then rm -f "+dir+"/slow; sleep 1.3; fi; echo \"$1\" > "+pwmFile+".tmp.$$ && mv "+pwmFile+".tmp.$$ "+pwmFile)
+	cmdScript(filepath.Join(dir, "get.sh"), "cat "+pwmFile)
+	curve := newScriptCurve()
+	fan, err := fans.NewFan(configuration.FanConfig{ID: uniqueId("c07slowfan"), Curve: curve.Id, Cmd: &configuration.CmdFanConfig{
+		SetPwm: &configuration.ExecConfig{Exec: filepath.Join(dir, "set.sh"), Args: []string{"%pwm%"}},
+		GetPwm: &configuration.ExecConfig{Exec: filepath.Join(dir, "get.sh")}}})
+	if err != nil {
+		ctx.Inconclusive("slow set tool: " + err.Error())
+		return
+	}
+	ctrl := newController(fan, control_loop.NewDirectControlLoop(nil), newMemPersistence(), identityMap())
+	read := func() int {
+		b, _ := os.ReadFile(pwmFile)
+		n, _ := strconv.Atoi(strings.TrimSpace(string(b)))
+		return n
+	}
+	high := 0
+	var seen []int
+	sample := func() (fell bool) {
+		v := read()
+		if len(seen) == 0 || seen[len(seen)-1] != v {
+			seen = append(seen, v)
+		}
+		if v < high {
+			return true
+		}
+		high = v
+		return false
+	}
+	fell := false
+	for k, c := range []int{60, 120, 190, 190, 191} {
+		if k == 1 {
+			_ = os.WriteFile(filepath.Join(dir, "slow"), []byte("1"), 0644)
+		}
+		curve.Val = c
+		_ = ctrl.UpdateFanSpeed()
+		ctx.Eval(1)
+		fell = fell || sample()
+	}
+	for t0 := time.Now(); time.Since(t0) < 1500*time.Millisecond; time.Sleep(20 * time.Millisecond) {
+		fell = fell || sample()
+	}
+	if fell {
+		ctx.Violation("slow-set-tool:device-pwm-falls-while-the-curve-value-only-rises", fmt.Sprintf("cmd fan, set tool slow once (1.3 s) at the second of the curve values 60, 120, 190, 190, 191: the device held %v", seen), nil)
+		return
+	}
+	ctx.Nontrivial("slow-set-tool")
+}
+
 func init() {
 	register("C07", func(ctx *Ctx) {
+		if ctx.Batch%8 == 3 {
+			c07SlowSetTool(ctx)
+		}
 		for i, ns := 0, ctx.N(32, 320); i < ns; i++ {
 			c07SharedCurve(ctx)
 		}
